@@ -1271,6 +1271,9 @@ func (db *DB) Repair(of Object) (err error) {
 	// indexed objects hold the values found in their file (a crash between
 	// the rewrite of an object and the commit of the schema leaves old ones)
 	index := newIndex(s.Fields)
+	// ids are what search results refer to: an indexed object keeps its
+	// id and no id used so far is given to another object
+	index.i = s.ObjectIndex.i
 	for uuid := range uuids {
 		// a new object is needed for every file: unmarshaling several
 		// files into the same object would merge their maps
@@ -1278,7 +1281,15 @@ func (db *DB) Repair(of Object) (err error) {
 			return
 		}
 
-		if err = index.insertOrUpdate(o); err != nil {
+		if id, ok := s.ObjectIndex.uuids[uuid]; ok {
+			if err = index.satisfyAll(o); err == nil {
+				err = index.insertAs(o, id)
+			}
+		} else {
+			err = index.insertOrUpdate(o)
+		}
+
+		if err != nil {
 			return
 		}
 	}
